@@ -35,7 +35,8 @@ ASSUMPTIONS = [
     "is resolvable in at least one POS- or NEG-RESPONSE); a path that does not resolve does not match",
     "expected values are written canonically per type: decimal integers, the exact string, hex digits of a "
     "byte field (either case), a decimal numeral for floats (exactly representable values, >=0.25 apart), "
-    "0x-prefixed hex for DTCs; a non-numeric expected value for a float parameter is outside the envelope",
+    "0x-prefixed hex for DTCs; a non-numeric expected value for a float parameter is outside the envelope; "
+    "an empty EXPECTED-VALUE equals the empty string / the empty byte field of a leading-length parameter",
     "ECU answers are never empty (evaluate(b'') is indistinguishable from a missing evaluate() call by API design)",
     "python warnings are not turned into errors (warnings.simplefilter('ignore') around the matcher)",
     "DIAG-COMM-SNREF always resolves in the candidate, paths never end at a structure/field and never descend "
@@ -48,11 +49,12 @@ MUST_HIT = [
     "kind:ecu", "kind:base", "outcome:match", "outcome:nomatch", "decisive-not-first", "last-param-fail",
     "shared-request", "ref:snref", "ref:snpath", "via-struct", "via-field", "any-item-decisive",
     "all-vs-any-decisive", "first-vs-last-decisive", "any-pattern-decisive", "type:u8", "type:u16", "type:str",
-    "type:bytes", "type:f32", "type:dtc", "ans:pos", "ans:neg", "ans:mut", "ans:trunc", "local-override",
+    "type:bytes", "type:f32", "type:dtc", "type:lstr", "type:lbytes", "falsy-value-decisive", "ans:pos", "ans:neg", "ans:mut", "ans:trunc", "local-override",
     "alias-service", "cache-saved-request", "match-via-neg", "two-pos", "phys:false", "wrong-const-answer",
 ]
 
 LEAF_POOL = ["id", "ver", "num", "name", "type", "raw", "val", "dtc"]
+VAR_POOL = LEAF_POOL + ["txt", "blob"]     # variable-length leaves: not inside field items
 REQ_POOL = [[0x22, 0xF1, 0x00], [0x22, 0xF1, 0x01], [0x1A, 0xF1, 0x00], [0x22, 0xF1], [0x1A, 0x90],
             [0x22, 0xF2, 0x00], [0x09, 0xF1, 0x00], [0x22, 0xF1, 0x00, 0x00], [0x1A, 0xF1, 0x01], [0x09, 0x90]]
 
@@ -223,7 +225,7 @@ def _classes(cfg, order, ecu, ref):
         cl.add("shared-request")
     for alt, name in (("first_item", "any-item-decisive"), ("any_param", "all-vs-any-decisive"),
                       ("last_match", "first-vs-last-decisive"), ("first_pattern", "any-pattern-decisive"),
-                      ("pos_only", "match-via-neg")):
+                      ("pos_only", "match-via-neg"), ("falsy_absent", "falsy-value-decisive")):
         a = M.ref_match(cfg, order, ecu, alt=alt)
         if a["match"] != ref["match"]:
             cl.add(name)
@@ -319,7 +321,7 @@ def _strategies():
 
     @st.composite
     def struct_body(draw, depth):
-        ps = draw(leaves(1, 2))
+        ps = draw(leaves(1, 2, VAR_POOL))
         if depth > 0 and draw(st.integers(0, 3)) == 0:
             inner = draw(st.sampled_from(["struct", "sfield", "dlfield"]))
             if inner == "struct":
@@ -347,7 +349,7 @@ def _strategies():
         used = set()
         for k in kinds:
             if k == "leaf":
-                n = draw(st.sampled_from(LEAF_POOL))
+                n = draw(st.sampled_from(VAR_POOL))
                 if n in used:
                     continue
                 nodes.append(_leaf(n))
@@ -610,7 +612,7 @@ def catalogue(kind="ecu"):
         [[mp("34", "S0", "nrc")]],
         [[mp("AB", "S0", "info.type"), mp("5", "S0", "info.ver"), mp("34", "S0", "id")]],
         [[mp("CD", "S1", "items.type")], [mp("34", "S0", "id", False), mp("5", "S0", "info.ver")]],
-        [[mp("5", "S0", "id")]],              # V8: overrides S0 (other request bytes)
+        [[mp("0", "S0", "id")]],              # V8: overrides S0 (other request bytes); expects the falsy value 0
         [[mp("5", "S0b", "id", False)]],      # V9: alias service, same request bytes as S0
         [[mp("34", "S1", "gnrc")]],           # V10: global negative response of S1
     ]
@@ -637,7 +639,7 @@ def catalogue(kind="ecu"):
     a1 = [p1(), p1(("AB", 5)), p1(("CD", 5), ("AB", 34)),
           {"k": "resp", "layout": "g", "v": {"rsid": 0x22, "gnrc": 34}},
           {"k": "trunc", "layout": "p1", "v": {"items": [{"type": "AB", "ver": 34}]}, "len": 1}]
-    a2 = [p0(5, "AB", 34), {"k": "resp", "layout": "n0", "v": {"nrc": 5}}]
+    a2 = [p0(0, "AB", 34), {"k": "resp", "layout": "n0", "v": {"nrc": 5}}]
     ecus = []
     for x, y, z in itertools.product(a0, a1, a2):
         ecus.append({"map": {"22f100": x, "22f101": y, "22f200": z},
